@@ -129,9 +129,14 @@ def check(ctx):
 
     # ---------------- (c) gating and placement
     hooks.gating(ctx, "C16.c")
+    def _same(func, expr, spec_src):
+        """Term of an argument expression equals the term of the documented expression (modulo the normal form)."""
+        if expr is None:
+            return False
+        return nf.equal(terms.Builder(P, func, {}, inline_depth=0).t(expr), specs.spec_term(spec_src))
     call = [c for c in P.calls_in(ch) if dotted(c.func) == "Hook.__init__"]
-    ok = len(call) == 1 and ast.unparse(kwarg(call[0], "prehook")) == "context_prehook if prehook else None" and \
-        ast.unparse(kwarg(call[0], "posthook")) == "context_posthook if posthook else None"
+    ok = len(call) == 1 and _same(ch, kwarg(call[0], "prehook"), "context_prehook if prehook else None") and \
+        _same(ch, kwarg(call[0], "posthook"), "context_posthook if posthook else None")
     ctx.ob("C16.c", "ContextualHook passes its pre / post closures iff the respective method name is given", ok, "", ch.where)
     sh = P.cls("StateHook")
     si = sh.methods["__init__"]
@@ -139,10 +144,8 @@ def check(ctx):
     call = [c for c in P.calls_in(si) if dotted(c.func) == "ContextualHook.__init__"]
     ok = False
     if len(call) == 1:
-        pre, post = kwarg(call[0], "prehook"), kwarg(call[0], "posthook")
-        ok = isinstance(pre, ast.IfExp) and isinstance(post, ast.IfExp) and ast.unparse(pre.test) == "as_prehook" and ast.unparse(post.test) == "not as_prehook" \
-            and isinstance(pre.body, ast.Constant) and pre.body.value == "_StateHook__wrapped_hook" and isinstance(post.body, ast.Constant) and post.body.value == "_StateHook__wrapped_hook" \
-            and isinstance(pre.orelse, ast.Constant) and pre.orelse.value is None and isinstance(post.orelse, ast.Constant) and post.orelse.value is None
+        ok = _same(si, kwarg(call[0], "prehook"), "'_StateHook__wrapped_hook' if as_prehook else None") and \
+            _same(si, kwarg(call[0], "posthook"), "None if as_prehook else '_StateHook__wrapped_hook'")
         tu, eu = kwarg(call[0], "train_update"), kwarg(call[0], "eval_update")
         ok = ok and dotted(tu) == "train_update" and dotted(eu) == "eval_update"
     ctx.ob("C16.c", "StateHook: the wrapped hook is the prehook iff as_prehook, else the posthook (never both); mode flags forwarded", ok, "", si.where)
